@@ -58,7 +58,108 @@ def run(ck, prog):
     ck.attempt(_walk_and_compare, ck, prog)
     ck.attempt(_permutant_builder, ck, prog, cmap)
     ck.attempt(_dep, ck, prog)
+    ck.attempt(_answer_kind, ck, prog)
     ck.attempt(check_api, ck, prog, [("get_deltaMax", "deltaMax", None)])
+
+
+def _answer_kind(ck, prog):
+    """KIND: deltaMax() answers with the number, deltaMax(returnSeqDeltaMax=True) with the pair (number, arrangement) - on every path, cached or
+    not.  The function is walked once with the flag true and once with it false: tests that only look at the flag select one arm, every other
+    test lets both arms through; each `return` that can be reached must have the matching form."""
+    f = prog.fn(SEQ, "Sequence.deltaMax")
+    construct = SEQ_PATH + ":Sequence.deltaMax"
+    flag = "returnSeqDeltaMax"
+    ck.shape(flag in f.params(), "deltaMax: parameter returnSeqDeltaMax", f.loc())
+
+    def truth(test, v):
+        """three-valued: True / False when the flag alone decides the test, None otherwise"""
+        if isinstance(test, ast.BoolOp):
+            vals = [truth(x, v) for x in test.values]
+            if isinstance(test.op, ast.And):
+                return False if False in vals else (True if all(x is True for x in vals) else None)
+            return True if True in vals else (False if all(x is False for x in vals) else None)
+        if isinstance(test, ast.UnaryOp) and isinstance(test.op, ast.Not):
+            x = truth(test.operand, v)
+            return None if x is None else not x
+        t = unparse(test).replace(" ", "")
+        if t in (flag, flag + "==True", flag + "isTrue", "bool(%s)" % flag):
+            return v
+        if t in ("not" + flag, flag + "==False", flag + "isFalse", "not(%s)" % flag):
+            return not v
+        return None
+
+    derived = {flag}
+    for _ in range(3):
+        for a in ast.walk(f.node):
+            if isinstance(a, ast.Assign) and any(isinstance(x, ast.Name) and x.id in derived for x in ast.walk(a.value)):
+                derived |= {t.id for t in a.targets if isinstance(t, ast.Name)}
+    from lcsa import bind as _bind
+    truth0 = truth
+
+    def truth(test, v):
+        t2 = _bind.inline_locals(f, test)
+        r = truth0(t2, v)
+
+        def atoms_ok(t):
+            if isinstance(t, ast.BoolOp):
+                return all(atoms_ok(x) for x in t.values)
+            if isinstance(t, ast.UnaryOp) and isinstance(t.op, ast.Not):
+                return atoms_ok(t.operand)
+            if any(isinstance(x, ast.Name) and x.id in derived for x in ast.walk(t)):
+                return truth0(t, v) is not None
+            return True
+        if r is None and not atoms_ok(t2):
+            # the flag takes part in the test in a way that is not followed: taking both arms would invent paths
+            raise Undecided("unrecognised shape: deltaMax: test %s involves returnSeqDeltaMax together with something else in a form lcsa does not split" % unparse(test)[:60], f.loc(test))
+        return r
+
+    def walk(stmts, v, out):
+        """-> can the end of the block be reached?"""
+        for s_ in stmts:
+            if isinstance(s_, ast.Return):
+                out.append(s_)
+                return False
+            if isinstance(s_, ast.Raise):
+                return False
+            if isinstance(s_, ast.If):
+                tv = truth(s_.test, v)
+                a = walk(s_.body, v, out) if tv is not False else None
+                b = walk(s_.orelse, v, out) if tv is not True else None
+                if tv is True and a is False or tv is False and b is False or (tv is None and a is False and b is False):
+                    return False
+                continue
+            if isinstance(s_, (ast.For, ast.While)):
+                walk(s_.body, v, out)
+                walk(s_.orelse, v, out)
+                continue
+            if isinstance(s_, ast.Try):
+                walk(s_.body, v, out)
+                for h in s_.handlers:
+                    walk(h.body, v, out)
+                walk(s_.orelse, v, out)
+                walk(s_.finalbody, v, out)
+                continue
+            if isinstance(s_, ast.With):
+                if walk(s_.body, v, out) is False:
+                    return False
+        return True
+    n = 0
+    for v in (True, False):
+        rets = []
+        walk(f.body(), v, rets)
+        for r in rets:
+            val = r.value
+            if isinstance(val, ast.Name):
+                from lcsa import bind
+                val = bind._resolve_local(f, val)
+            is_pair = isinstance(val, ast.Tuple) and len(val.elts) == 2
+            is_scalar = val is not None and not isinstance(val, (ast.Tuple, ast.List, ast.Dict)) and not (isinstance(val, ast.Call) and not isinstance(val.func, ast.Name))
+            ck.shape(is_pair or is_scalar, "deltaMax: a return that is neither a pair display nor a plain value (%s)" % unparse(r)[:50], f.loc(r))
+            n += 1
+            ck.ob("KIND", construct, is_pair == v, expected="(delta-max, arrangement)" if v else "the delta-max value alone", found=unparse(r)[:70],
+                  slot="return@%d[%s=%s]" % (r.lineno - f.node.lineno, flag, v), where=f.loc(r),
+                  note="what a call returns must depend on its argument, not on what an earlier call left in the cache")
+    ck.count("deltaMax returns classified", n)
 
 
 def _symbols(ck, prog):
